@@ -126,19 +126,19 @@ Record counts := mkCounts {
 Definition reset_counts (g : config) : counts :=
   mkCounts pzero 0 0 (init_zt g) (g_schema g) 0 [] [].
 
-(* histogramCounts.observe (656-707) with doSparse = not NaN *)
+(* histogramCounts.observe with doSparse = not NaN; the zero-bucket decision is taken on the
+   original value (origV), the key on the value with +-Inf replaced by +-MaxFloat64 *)
 Definition c_observe (c : counts) (v : f64) : counts :=
   let sum' := fadd (c_sum c) v in
   if is_nan v then
     mkCounts sum' (c_cnt c + 1) (c_zb c) (c_zt c) (c_schema c) (c_bn c) (c_pos c) (c_neg c)
   else
-    let v1 := inf_to_max v in
     let key := key_of (c_schema c) v in
-    if fgt v1 (c_zt c) then
+    if fgt v (c_zt c) then
       let (m, created) := m_add (c_pos c) key 1 in
       mkCounts sum' (c_cnt c + 1) (c_zb c) (c_zt c) (c_schema c)
                (if created then u32_inc (c_bn c) else c_bn c) m (c_neg c)
-    else if flt v1 (fneg (c_zt c)) then
+    else if flt v (fneg (c_zt c)) then
       let (m, created) := m_add (c_neg c) key 1 in
       mkCounts sum' (c_cnt c + 1) (c_zb c) (c_zt c) (c_schema c)
                (if created then u32_inc (c_bn c) else c_bn c) (c_pos c) m
@@ -262,6 +262,12 @@ Fixpoint widen_merge (sk : Z) (cm hm : bmap) (hzb hbn cbn : Z) : bmap * bmap * Z
         ((k, 0) :: c', hm', hzb', hbn', cbn')
   end.
 
+(* the key of the populated bucket closest to zero on either side (1024-1028) *)
+Definition widen_key (c : counts) : Z :=
+  let sp := find_smallest_key (c_pos c) in
+  let sn := find_smallest_key (c_neg c) in
+  if Z.ltb sn sp then sn else sp.
+
 (* maybeWidenZeroBucket (1018-1082) *)
 Definition maybe_widen (h : hist) : option (hist * bool) :=
   let g := h_cfg h in
@@ -269,9 +275,7 @@ Definition maybe_widen (h : hist) : option (hist * bool) :=
   let cold := h_cold h in
   if fge (c_zt hot) (g_max_zt g) then Some (h, false)
   else
-    let sp := find_smallest_key (c_pos hot) in
-    let sn := find_smallest_key (c_neg hot) in
-    let sk := if Z.ltb sn sp then sn else sp in
+    let sk := widen_key hot in
     if Z.eqb sk max_int32 then Some (h, false)
     else
       let nzt := get_le sk (c_schema hot) in
@@ -614,3 +618,65 @@ Definition write_check (g : config) (seen : list tobs) (exs : list exemplar)
   | None => true
   end &&
   exemplars_check g exs out_ex.
+
+(* ---- ghost history: G = the observations made since the last reset, as the model executes ---- *)
+Definition ghost_step (h : hist) (G : list f64) (o : op) : list f64 :=
+  match o with
+  | OObs v | OObsEx v _ => match observe_k h v with Some (_, SReset) => [v] | _ => G ++ [v] end
+  | OFire => if h_sched h then [] else G
+  | _ => G
+  end.
+
+(* how histogramCounts.observe classifies a value under zero threshold zt *)
+Definition goes_pos (zt v : f64) : bool := negb (is_nan v) && fgt v zt.
+Definition goes_neg (zt v : f64) : bool := negb (is_nan v) && negb (fgt v zt) && flt v (fneg zt).
+Definition goes_zero (zt v : f64) : bool := negb (is_nan v) && negb (fgt v zt) && negb (flt v (fneg zt)).
+
+(* A widening step from count set `before` to `after` is EXACT on G when the float threshold
+   getLe produced separates the observations exactly as the merged bucket did: everything that was
+   in bucket sk (either sign) or in the zero bucket is within the new threshold, nothing else is.
+   (False only where getLe rounds: bucket bounds below 2^-1022, known finding subnormal-widen.) *)
+Definition widen_exact (G : list f64) (before after : counts) : bool :=
+  let zt := c_zt before in
+  let nzt := c_zt after in
+  let s := c_schema before in
+  let sk := widen_key before in
+  fle pzero nzt &&
+  forallb (fun v =>
+    let ksk := Z.eqb (key_of s v) sk in
+    Bool.eqb (goes_zero nzt v) (goes_zero zt v || (goes_pos zt v && ksk) || (goes_neg zt v && ksk)) &&
+    Bool.eqb (goes_pos nzt v) (goes_pos zt v && negb ksk) &&
+    Bool.eqb (goes_neg nzt v) (goes_neg zt v && negb ksk)) G.
+
+Definition step_exact (h : hist) (G : list f64) (o : op) : bool :=
+  match o with
+  | OObs v | OObsEx v _ =>
+      match observe_k h v with
+      | Some (h', SWiden) => widen_exact (G ++ [v]) (c_observe (h_hot h) v) (h_hot h')
+      | _ => true
+      end
+  | _ => true
+  end.
+
+(* the run with its ghost: every Write's output paired with G at that moment, and whether all
+   widening steps were exact *)
+Fixpoint run_ghost (h : hist) (G : list f64) (ops : list op) : option (list (wout * list f64) * bool) :=
+  match ops with
+  | [] => Some ([], true)
+  | o :: r =>
+      match step h o with
+      | None => None
+      | Some (h', None) =>
+          match run_ghost h' (ghost_step h G o) r with
+          | None => None
+          | Some (l, b) => Some (l, step_exact h G o && b)
+          end
+      | Some (h', Some w) =>
+          match run_ghost h' G r with
+          | None => None
+          | Some (l, b) => Some ((w, G) :: l, b)
+          end
+      end
+  end.
+
+Definition valid_config (g : config) : Prop := -4 <= g_schema g <= 8.
